@@ -62,7 +62,77 @@ fn key(code: &str) -> KEv {
 const D_LAT: f64 = 0.5;
 const D_LON: f64 = 0.4;
 
+/// "Two lives": an aircraft is looked at on the Airplanes tab, the operator moves to another tab,
+/// the aircraft expires and comes back (with new data and often exactly as many messages as it
+/// had when last looked at), and the operator returns to the Airplanes tab.
+fn generate_two_lives(rng: &mut Rng) -> K18 {
+    let rx = *rng.pick(&RECEIVERS);
+    let filter_time = 2u64;
+    let slots: [(f64, f64); 3] = [(0.25, 0.3), (-0.75, 0.9), (0.75, -0.9)];
+    let lat_f = rx.0.to_radians().cos() / 35.0f64.to_radians().cos();
+    let nac = 1 + rng.usize_below(3);
+    let mut lines: Vec<(u64, String)> = vec![];
+    let frame = |rng: &mut Rng, addr: [u8; 3], k: u32, life: u32, slot: usize| -> String {
+        let (dlat, dlon) = (slots[slot].0 * lat_f + 0.05 * life as f64, slots[slot].1);
+        let me = match k % 3 {
+            0 => wire::me_identification(4, 0, &format!("L{life}X{slot}")),
+            _ => {
+                let odd = k % 3 == 2;
+                let (yz, xz) = wire::cpr_encode(rx.0 + dlat, rx.1 + dlon, odd);
+                wire::me_airborne_position(11, 0, 0, wire::ac12_q(8_000 + 4_000 * life as i32 + 1_000 * slot as i32), false, odd, yz, xz)
+            }
+        };
+        let _ = rng;
+        wire::hex(&wire::df17(5, addr, me))
+    };
+    let n1: Vec<u32> = (0..nac).map(|_| 1 + rng.below(6) as u32).collect();
+    let mut t = 200_000u64;
+    for k in 0..6u32 {
+        for a in 0..nac {
+            if k < n1[a] {
+                lines.push((t, frame(rng, [0xa1, 0x30, a as u8 + 1], k, 1, a)));
+                t += 130_000;
+            }
+        }
+    }
+    let look = t + 150_000; // F3 glance: every aircraft is seen with its first-life count
+    let leave = look + 300_000 + rng.below(300_000);
+    let back_traffic = leave + (filter_time + 1) * 1_000_000 + rng.below(600_000);
+    let mut t2 = back_traffic;
+    for a in 0..nac {
+        // second life: exactly as many frames as before, or one more / fewer
+        let n2 = match rng.below(4) {
+            0 => n1[a] + 1,
+            1 => n1[a].saturating_sub(1).max(1),
+            _ => n1[a],
+        };
+        if rng.chance(0.85) {
+            for k in 0..n2 {
+                lines.push((t2, frame(rng, [0xa1, 0x30, a as u8 + 1], k, 2, a)));
+                t2 += 130_000;
+            }
+        }
+    }
+    lines.sort();
+    let home = *rng.pick(&["F1", "F4", "F5"]);
+    let events_a = vec![KEvent { at_us: 50_000, ev: key("F3") }, KEvent { at_us: look, ev: key("F3") }, KEvent { at_us: leave, ev: key(home) }, KEvent { at_us: t2 + 200_000, ev: key("F3") }, KEvent { at_us: t2 + 700_000, ev: key("F4") }];
+    let events_b = vec![
+        KEvent { at_us: 200_000, ev: key("F1") },
+        KEvent { at_us: 500_000, ev: key("c:+") },
+        KEvent { at_us: 700_000, ev: key("F1") },
+        KEvent { at_us: 900_000, ev: key("Enter") },
+        KEvent { at_us: 1_200_000, ev: key("F3") },
+        KEvent { at_us: 1_500_000, ev: key("F4") },
+        KEvent { at_us: 1_800_000, ev: key("F1") },
+        KEvent { at_us: 2_000_000, ev: key("c:q") },
+    ];
+    K18 { cols: 120, rows: 40, filter_time, locations: vec![("RX".to_string(), 0.0, 0.0)], flags: vec![], lines, events_a, events_b, bulk: 0, many: false, rx }
+}
+
 pub fn generate(rng: &mut Rng, fault_free: bool) -> K18 {
+    if !fault_free && rng.chance(0.06) {
+        return generate_two_lives(rng);
+    }
     let rx = if fault_free { (35.0, -80.0) } else { *rng.pick(&RECEIVERS) };
     let cols = *rng.pick(&[110u16, 120, 140, 160, 200]);
     let rows = *rng.pick(&[40u16, 44, 50, 60]);
